@@ -120,8 +120,24 @@ static Verdict judge(const Plan &plan, const OpResult &dry, const OpResult &r) {
     }
     if (r.nfailed && r.heap_uaf > dry.heap_uaf) {
         v.cls = "use-after-free";
-        v.detail = "after the failed request the call wrote to (or grew) a block it had already released (the fault-free execution does not)";
+        v.detail = "after the failed request the call wrote to, grew, or built its handler message from a block it had already released (the fault-free execution does not)";
         return v;
+    }
+    if (r.nfailed && sh.has_dest && (int64_t)sh.dest + (int64_t)sh.dmax * sh.esz <= ARENA_SIZE) {
+        // poison of a released block in dest: the call copied from memory it had already released
+        const uint8_t *post = g_sim.tasks[0]->arena.base, *pre = g_pre.arena.base;
+        int run = 0, prerun = 0, best = 0, prebest = 0;
+        for (int i = 0; i < sh.dmax * sh.esz; i++) {
+            run = post[sh.dest + i] == 0xDD ? run + 1 : 0;
+            prerun = pre[sh.dest + i] == 0xDD ? prerun + 1 : 0;
+            best = std::max(best, run);
+            prebest = std::max(prebest, prerun);
+        }
+        if (best >= 4 && prebest < 4) {
+            v.cls = "use-after-free";
+            v.detail = "after the failed request the call copied the contents of a block it had already released into dest";
+            return v;
+        }
     }
     if (r.leaked) {
         v.cls = "leak";
